@@ -1,21 +1,24 @@
 (* C03 -- Verilog write -> read round trip.  Statements only; proofs in Proofs/VerilogProofs.v. *)
 From CG Require Import Verilog.ExprParse.
 From stdpp Require Import strings gmap sets.
-From CG Require Import Types Sem Cases Model.Lint Api Verilog.Ast Verilog.Read Verilog.Write Proofs.VerilogProofs Proofs.VerilogReadProofs.
+From CG Require Import Types Sem Cases Model.Lint Api Verilog.Ast Verilog.Read Verilog.Write Proofs.VerilogProofs Proofs.VerilogReadProofs Proofs.VerilogRtProofs.
 Open Scope string_scope.
 
 (* well-formed circuits of the property: lint-clean (blackbox pins may be open), names usable as identifier tokens,
-   one definition per blackbox name *)
+   one definition per blackbox name; edges end at nodes (a networkx graph always is closed; the finite-map model is not) *)
 Definition rt_flags := {| fail_fast := true; unloaded := false; undriven := false; single_in := false |}.
 Definition wf_rt (C : Circuit) : Prop :=
   lint C rt_flags = Ok () ∧
   (∀ n i, c_g C !! n = Some i → n_ty i ∈ gate_types → n_fi i ≠ ∅) ∧
   (∀ n, n ∈ dom (c_g C) → n ≠ "" ∧ starts_digit n = false) ∧
-  (∀ i j d e, c_bbs C !! i = Some d → c_bbs C !! j = Some e → bb_name d = bb_name e → d = e).
+  (∀ i j d e, c_bbs C !! i = Some d → c_bbs C !! j = Some e → bb_name d = bb_name e → d = e) ∧
+  closed (c_g C).
 Definition bbdefs_of (C : Circuit) : list bbdef := (map_to_list (c_bbs C)).*2.
 Definition no_consts (g : circuit) : Prop := of_type g (λ t, bool_decide (t ∈ const_types)) = ∅.
+Definition no_pins (g : circuit) : Prop := of_type g (λ t, is_ty BbIn t || is_ty BbOut t) = ∅.
 
-(* full statements (validated per generated circuit by Run_C03.holds, not proved) *)
+(* full statements (validated per generated circuit by Run_C03.holds; proved below: roundtrip_identical for circuits without
+   blackboxes; open: circuits with blackbox instances, and roundtrip_equiv) *)
 Definition roundtrip_equiv_full : Prop := ∀ C b π m rsv,
   wf_rt C → write C b π = Ok m → list_to_set (module_ids m) ⊆ rsv →
   ∃ C', read rsv (bbdefs_of C) m = Ok C' ∧
@@ -66,6 +69,22 @@ Theorem C03_port_mismatch_rejected : ∀ rsv bbs m C, read rsv bbs m = Ok C → 
 Proof. exact read_rejects_port_mismatch. Qed.
 Print Assumptions C03_port_mismatch_rejected.
 
+(* roundtrip_identical for circuits without blackboxes (no registry entry, no pin-typed node): for every order choice π and every
+   reserved set that contains the identifiers of the text, reading the primitive-style text back succeeds and returns the very
+   same circuit - same nodes, types, edges, output marks, name, (empty) registry.  Proof (Proofs/VerilogRtProofs.v): the writer's
+   item list is inputs, outputs, wires, one statement per gate (write_inv); every add / connect check passes for the emitted
+   statements (add_g_succeeds: facts about the regenerated Gen_types tables); fold invariant J (declared inputs are `input`
+   nodes, processed gates have their final node, referenced unprocessed gates are placeholder buffers) on top of
+   C03_prim_instance_exact_partial; module() marks exactly the outputs and drops the three unread constants; map_eq.
+   Missing for roundtrip_identical_full: blackbox instances (named connections, pins, detached output buffers). *)
+Theorem C03_roundtrip_identical_bbfree : ∀ C π m rsv,
+  wf_rt C → c_bbs C = ∅ → no_pins (c_g C) → no_consts (c_g C) → write C false π = Ok m → list_to_set (module_ids m) ⊆ rsv →
+  read rsv (bbdefs_of C) m = Ok C.
+Proof.
+  intros C π m rsv (Hl & Hg & Hn & _ & Hcl) Hb Hp Hc Hw Hids.
+  exact (roundtrip_identical_prim C π m rsv _ (lint_clean_rt C rt_flags Hl Hg Hn Hcl Hc Hp) Hb Hw Hids).
+Qed.
+Print Assumptions C03_roundtrip_identical_bbfree.
 (* non-vacuity: a circuit with a blackbox, a constant and an escaped name satisfies wf_rt, is written and read back *)
 Definition ex_C : Circuit := Cases.mk "top"
   [("a", Input, false, []); ("\b[0]", Input, true, []); ("k", C1, false, []);
@@ -85,3 +104,18 @@ Example C03_ex_roundtrip :
             | _ => false end
   | _ => false end = true.
 Proof. vm_compute. reflexivity. Qed.
+(* non-vacuity of C03_roundtrip_identical_bbfree: every hypothesis holds for a circuit with an input that is an output, a
+   one-operand nand, a self-referencing name pattern (g_0) and use before definition in the emitted order *)
+Definition ex_C2 : Circuit := Cases.mk "top2"
+  [("a", Input, true, []); ("b", Input, false, []); ("g_0", Nand, false, ["a"; "b"]); ("n1", Not, true, ["g_0"]);
+   ("x1", Xor, true, ["a"; "n1"; "g_0"]); ("o1", Nor, true, ["x1"])] [].
+Definition ex_ord2 : worder :=
+  {| o_ins := ["b"; "a"]; o_outs := ["x1"; "a"; "o1"; "n1"]; o_bbs := []; o_nodes := ["x1"; "o1"; "n1"; "g_0"];
+     o_fi := [("x1", ["n1"; "a"; "g_0"]); ("o1", ["x1"]); ("n1", ["g_0"]); ("g_0", ["b"; "a"])] |}.
+Example C03_ex_identical_hyps :
+  lint ex_C2 rt_flags = Ok () ∧ closedb (c_g ex_C2) = true ∧ c_bbs ex_C2 = ∅ ∧
+  bool_decide (no_pins (c_g ex_C2)) = true ∧ bool_decide (no_consts (c_g ex_C2)) = true ∧
+  bool_decide (map_Forall (λ n i, n_ty i ∈ gate_types → n_fi i ≠ ∅) (c_g ex_C2)) = true ∧
+  bool_decide (map_Forall (λ n (_ : ninfo), n ≠ "" ∧ starts_digit n = false) (c_g ex_C2)) = true ∧
+  match write ex_C2 false ex_ord2 with Ok m => bool_decide (read (list_to_set (module_ids m)) [] m = Ok ex_C2) | _ => false end = true.
+Proof. vm_compute. done. Qed.
